@@ -292,4 +292,48 @@ def rule_load(ctx) -> RuleResult:
     return res
 
 
-RULES = [rule_guard, rule_scope, rule_load]
+def rule_rebuild(ctx) -> RuleResult:
+    res = RuleResult(
+        "C19.REBUILD",
+        "C19",
+        "when the Root link is missing, every recovered entity ends up under the parent the file records for it: either "
+        "the rebuild loads entities parent-first / passes the recorded parent, or fetch_children re-attaches an entity it "
+        "finds already registered under another parent",
+        floor=1,
+    )
+    p = ctx.p
+    fr = p.func("Workspace.fetch_or_create_root")
+    fc = p.func("Workspace.fetch_children")
+    loops = [lp for lp in ast.walk(fr.node) if isinstance(lp, ast.For) and any(isinstance(c, ast.Call) and getattr(c.func, "attr", None) == "load_entity" for c in ast.walk(lp))]
+    if not loops:
+        raise AnalysisError("Workspace.fetch_or_create_root: recovery loop not found")
+    flat_order = False
+    for lp in loops:
+        for c in ast.walk(lp):
+            if isinstance(c, ast.Call) and getattr(c.func, "attr", None) == "load_entity":
+                has_parent = any(k.arg == "parent" for k in c.keywords) or len(c.args) > 2
+                if not has_parent:
+                    flat_order = True
+    # does fetch_children re-attach a child that is already registered?
+    var = None
+    for a in ast.walk(fc.node):
+        if isinstance(a, ast.Assign) and isinstance(a.value, ast.Subscript) and isinstance(a.value.value, ast.Call) and getattr(a.value.value.func, "attr", None) == "get_entity":
+            var = a.targets[0].id
+    if var is None:
+        raise AnalysisError("Workspace.fetch_children: lookup of already registered children not found")
+    ent = fc.params[1]
+    reattach = any(
+        (isinstance(n, ast.Assign) and any(unparse(t) in (f"{var}.parent", f"{var}._parent") for t in n.targets))
+        or (isinstance(n, ast.Call) and getattr(n.func, "attr", None) == "add_children" and unparse(n.func.value) == ent)
+        for n in ast.walk(fc.node))
+    ok = (not flat_order) or reattach
+    res.inst("root rebuild: recovered entities end under their recorded parent (parent-first order, explicit parent, or re-attachment in fetch_children)",
+             nontrivial=True, ok=ok)
+    if not ok:
+        res.find("Workspace", "fetch_or_create_root", "entities are recovered in flat-container order under the new root and never re-attached", fr.where,
+                 "a nested group / object whose uid sorts before its parent's is loaded first, attached to the rebuilt root, and stays there when its "
+                 "parent is read later (fetch_children does not re-attach registered entities): the hierarchy of entities the Root link does not describe is altered")
+    return res
+
+
+RULES = [rule_guard, rule_scope, rule_load, rule_rebuild]
